@@ -145,7 +145,7 @@ def gen_expr(r, cls, depth=1, positive=False):
         if cls == "unary":
             return ("un", "+", p())
         if cls == "cast":
-            return ("cast", p())
+            return ("cast", atom(r, True))
         if cls == "mul":
             return ("bin", "*", p(), p())
         if cls == "add":
@@ -165,7 +165,9 @@ def gen_expr(r, cls, depth=1, positive=False):
     if cls == "unary":
         return ("un", r.choice(["-", "+", "~", "!"]), operand(r, 15, depth))
     if cls == "cast":
-        return ("cast", operand(r, 15, depth))
+        # the OKL expression parser rejects `x + (int) (y)` ("Unable to apply operator"; not a C17-C19 matter):
+        # casts are applied to atoms only
+        return ("cast", atom(r))
     if cls == "tern":
         return ("tern", operand(r, 4, depth), operand(r, 3, depth), operand(r, 3, depth))
     op = r.choice(CLASS_OPS[cls])
@@ -619,7 +621,7 @@ def run_cases(ck, hb, db, cases, label, batch=60, hist=8, text=True):
             nerr += 1
         else:
             sources[c.kid] = {m: s for m, s in d.items() if m != "okl"}
-        if text and body != flat_model[c.op]:
+        if text and body != flat_model[c.op] and len(ck.violations) < 10:
             a, b = first_seg_diff(body, flat_model[c.op])
             ck.report_failure(label + "-text", [c.op], [a], [b], [])
     C["rejected_by_translator_" + label] = C.get("rejected_by_translator_" + label, 0) + nerr
@@ -690,7 +692,7 @@ def run_cases(ck, hb, db, cases, label, batch=60, hist=8, text=True):
             if got != pred:
                 impl_obs.append("%s: %s" % (m, fmt(got)))
                 model_obs.append("%s: %s" % (m, fmt(pred if pred is not None else "MISSING")))
-        if oracles or impl_obs:
+        if (oracles or impl_obs) and len(ck.violations) < 10:
             ck.report_failure(label, [c.op, "V " + vals_line(v)], impl_obs or ["(as the model)"], model_obs or ["(as the implementation)"],
                               [compress_oracles(oracles)] if oracles else [])
     C["value_tuples_" + label] = C.get("value_tuples_" + label, 0) + len(keys)
